@@ -9,10 +9,11 @@
   the register (that the merged group gates act as the sums of their members is
   `T16_toTerm` / `T16_groups_sum` of part 1).
 
-  NOT proved (kept visible as `def … : Prop`): the analytic error bound
-  `‖S(dt) - exp(-i dt H)‖ = O(dt³)` for non-commuting terms (`TrotterThirdOrder`); its
-  algebraic cores are `T16_trotter_time_reversal` here and `T16_trotter_reversible` in part 1.
-  The direct search measures the error ratio on the real code on every run.
+  The analytic error bound `‖S(dt) - exp(-i dt H)‖ = O(dt³)` for non-commuting terms is stated
+  here as `def TrotterThirdOrder : Prop` and PROVED in part 3 (`QV/Props/C16c.lean`:
+  `TrotterThirdOrder_proved`, explicit constant in `T16_trotter_third_order`), together with the
+  algebraic second-order statement for every term list.  The direct search measures the error
+  ratio on the real code on every run and evaluates the proved bound on the real circuits.
 -/
 import QV.Proofs.Evolution
 import QV.Proofs.EvolutionExp
@@ -61,7 +62,8 @@ example : ∃ (a : Matrix (Fin 2) (Fin 2) ℤ) (hs : List (Matrix (Fin 2) (Fin 2
   simp only [List.mem_cons, List.not_mem_nil, or_false] at hh
   rcases hh with rfl | rfl <;> (show _ * _ = _ * _) <;> decide
 
-/-- the unproved analytic statement: third-order local error of the symmetric step. -/
+/-- the analytic statement: third-order local error of the symmetric step (proved in part 3,
+`TrotterThirdOrder_proved` in `QV/Props/C16c.lean`). -/
 def TrotterThirdOrder : Prop :=
   ∀ (m : ℕ) (hs : List (Matrix (Fin m) (Fin m) ℂ)),
     ∃ C : ℝ, ∀ dt : ℝ, |dt| ≤ 1 →
